@@ -57,7 +57,59 @@ def c14(tier, seed):
     return jobs
 
 
+KEYS = "pkg/storage/cache/keys"
+
+
+def c24(tier, seed):
+    q = tier == "quick"
+    jobs = [
+        J(KEYS, "VerifK24aUniqueDecoding", k=1, str=2, timeout_ms=120000),
+        J(KEYS, "VerifK24aUvarintPrefixFree", timeout_ms=120000),
+        J(KEYS, "VerifK24aHexInjective", len=3 if q else 5, timeout_ms=300000),
+    ]
+    if not q:
+        jobs.append(J(KEYS, "VerifK24aUniqueDecoding", k=2, str=2, timeout_ms=900000))
+    return jobs
+
+
+def c27(tier, seed):
+    q = tier == "quick"
+    P = "internal/authn/presharedkey"
+    return [J(P, "VerifK27Preshared", len=3 if q else 6, timeout_ms=300000), J(P, "VerifK27NoKeys")]
+
+
+def c28(tier, seed):
+    q = tier == "quick"
+    E = "pkg/encoder"
+    return [
+        J(E, "VerifK28aSerializerRoundTrip", u=3 if q else 6, t=4 if q else 8),
+        J(E, "VerifK28aDeserializeAny", len=6 if q else 12),
+        J(E, "VerifK28bTokenEncoder", d=3 if q else 6, timeout_ms=300000),
+    ]
+
+
 SPEC = {
+    "C24": {
+        "jobs": c24,
+        "level_text": "bounded symbolic execution of the cache-key Builder: two arbitrary sequences of Encode* calls (kinds and payloads symbolic, merged into one query) that yield the same bytes are the same sequence with equal payloads (unique decodability of the tag/length framing); uvarint length prefixes are prefix-free for all pairs of uint64; the hex rendering of keys is injective",
+        "level_note": "bounds: sequences of <= 1 (quick) / 2 (thorough) fields per side with strings <= 2 bytes and counts 0..200 (crossing the 1/2-byte uvarint boundary); hex: keys <= 3/5 bytes; digest collisions excluded by the property; trusted: engine semantics, z3",
+        "assumptions": ["slices.Grow only affects capacity", "merging byte slices with different backing arrays at control-flow joins copies them (no aliasing is relied on by the Builder)"],
+        "outside": ["PbValue/Tuple/CheckCacheKey compositions (K24b) until registered", "xxhash digest collisions"],
+    },
+    "C27": {
+        "jobs": c27,
+        "level_text": "bounded symbolic execution of PresharedKeyAuthenticator.Authenticate with 1..3 arbitrary configured keys and an arbitrary presented token (the real subtle.ConstantTimeCompare over 32 digest bytes is encoded): authenticated exactly when the token is a configured key (under collision freedom of the digest, which is an uninterpreted function), missing header => ErrMissingBearerToken, otherwise ErrUnauthenticated; no keys => constructor error",
+        "level_note": "bounds: keys and token <= 3 (quick) / 6 bytes; sha256 is an uninterpreted function with collision freedom assumed for the strings in play; grpc AuthFromMD replaced by its contract (returns the bearer token or an error); OIDC is outside (RSA/JWT library code cannot be encoded)",
+        "assumptions": ["sha256.Sum256 is a function (UF) without collisions on the strings involved", "grpcauth.AuthFromMD returns the bearer token or an error"],
+        "outside": ["OIDC authenticator (JWT parsing, RS256, key-set fetch)", "header parsing inside the grpc middleware"],
+    },
+    "C28": {
+        "jobs": c28,
+        "level_text": "bounded symbolic execution of the continuation-token serializer and of the TokenEncoder+GCMEncrypter framing around an ideal AEAD: serialize/deserialize round-trips for every ulid without '|' and every type string, every accepted string re-serializes to itself, Decode(Encode(d)) = d, and every string that was not issued is rejected (except the documented empty-token pass-through)",
+        "level_note": "bounds: ulid <= 3/6 bytes, type <= 4/8 bytes, payload <= 3/6 bytes, forged token <= payload+4 bytes; AES-GCM replaced by an ideal AEAD with symbolic keystream and tag (Open succeeds exactly on sealed pairs), nonce from crypto/rand = arbitrary bytes; base64 is the identity encoder here (library code outside)",
+        "assumptions": ["ideal AEAD", "crypto/rand yields arbitrary bytes"],
+        "outside": ["AES-GCM and base64 as mathematics", "key derivation strength"],
+    },
     "C14": {
         "jobs": c14,
         "level_text": "bounded symbolic execution of the memory backend's paginated reads (ReadPage, ListStores, ReadAuthorizationModels): for every item count <= N, every page size and EVERY continuation-token byte string up to the bound the solver shows the call either rejects the token or returns the contiguous page at the (clamped) position in the documented order with the exact follow-up token; following issued tokens visits every item once. A panic on any path is a violation.",
